@@ -633,6 +633,7 @@ func c20Table(p *Prog, r *Report) {
 		}
 	}
 	table := []*cfgLeaf{}
+	semantic := false // some setting was decided by running its ParseEnv method: helper functions with lookups are not "dead clauses"
 	for _, l := range leaves {
 		cons := "config.Config#" + l.Path
 		// yaml tag
@@ -669,6 +670,13 @@ func c20Table(p *Prog, r *Report) {
 				})
 			}
 			if assignedAt != "" {
+				// no clause of a known shape: the ParseEnv method of the section is run as a whole on an abstract
+				// environment that holds (or not) the variable the documentation names
+				if c20SemanticSetting(p, r, cons, l) {
+					semantic = true
+					table = append(table, l)
+					continue
+				}
 				r.Undecided("C20.b", cons+"/env", assignedAt, "the setting is assigned outside an `if v, ok := os.LookupEnv(NAME); ...` clause: this form of environment handling is not one the rule follows")
 			} else {
 				r.Viol("C20.b", cons+"/env", "", "no os.LookupEnv clause assigns this setting: the environment cannot override it")
@@ -714,6 +722,11 @@ func c20Table(p *Prog, r *Report) {
 		}
 		sites := f.CallSites(k)
 		if len(sites) == 0 {
+			// reached through a ParseEnv method of a section (readStorageEnv from Storage.ParseEnv): the section's
+			// method is checked in its own right, the settings were decided by running it
+			if semantic && p.funcCallsDeep(root, p.keysPred(k)) {
+				continue
+			}
 			r.Viol("C20.b", kCfgParseEnv+"#calls "+k, p.pos(root.Decl), "Config.ParseEnv never calls "+k+": its environment clauses are dead")
 			continue
 		}
@@ -1378,4 +1391,165 @@ func c20SetterClause(p *Prog, r *Report, cons string, l *cfgLeaf, cl *envClause)
 			r.Viol("C20.b", cons+"/parse-error "+types.ExprString(cl.setter.Fun), p.pos(cl.setter), "the error of the environment helper is dropped: a malformed value is not reported")
 		}
 	}
+}
+
+// c20SemanticSetting decides one setting by running the ParseEnv method of its section (helpers, two-phase
+// read-then-overlay designs and all) on an abstract environment: only the variable the documentation names is
+// present / present but empty / absent; every parser succeeds, or (second run) every parser fails. The setting must be
+// assigned exactly when the variable is present and non-empty, from a value derived from its text, and a failing
+// parser must make the method return an error.
+func c20SemanticSetting(p *Prog, r *Report, cons string, l *cfgLeaf) bool {
+	if l.DocEnv == "" || l.owner == nil {
+		return false
+	}
+	mk := "(*config." + l.owner.Obj().Name() + ").ParseEnv"
+	fi := p.Func(mk)
+	if fi == nil || fi.Decl.Body == nil || fi.Decl.Recv == nil || len(fi.Decl.Recv.List[0].Names) != 1 {
+		return false
+	}
+	info := fi.Pkg.TypesInfo
+	recv := info.Defs[fi.Decl.Recv.List[0].Names[0]]
+	type outcome struct {
+		assigned bool
+		val      *Val
+		ret      []*Val
+		parsers  int
+	}
+	run := func(present, empty, failParse bool) (out outcome, err error) {
+		text := strVal("x")
+		if empty {
+			text = strVal("")
+		}
+		old := &Val{Tag: "old"}
+		st := &Val{Fields: map[string]*Val{}}
+		if sct, ok := l.owner.Underlying().(*types.Struct); ok {
+			for i := 0; i < sct.NumFields(); i++ {
+				st.Fields[sct.Field(i).Name()] = &Val{Tag: "other"}
+			}
+		}
+		st.Fields[l.field.Name()] = old
+		env := &Env{P: p, Pkg: fi.Pkg, Vars: map[types.Object]*Val{recv: {Ptr: st}}}
+		nameOf := func(e *Env, a ast.Expr) string {
+			if v, verr := e.Eval(a); verr == nil && v != nil && v.C != nil && v.C.Kind() == constant.String {
+				return constant.StringVal(v.C)
+			}
+			return ""
+		}
+		env.Hook = func(e *Env, x ast.Expr) (*Val, bool) {
+			c, ok := x.(*ast.CallExpr)
+			if !ok {
+				return nil, false
+			}
+			ci := e.Pkg.TypesInfo
+			if isFunc(ci, c, "os", "Getenv") && len(c.Args) == 1 {
+				if nameOf(e, c.Args[0]) == l.DocEnv && present {
+					return text, true
+				}
+				return strVal(""), true
+			}
+			if isFunc(ci, c, "fmt", "Errorf") || isFunc(ci, c, "errors", "Join") || isFunc(ci, c, "errors", "New") {
+				return &Val{Tag: "error"}, true
+			}
+			if tv, ok := ci.Types[c.Fun]; ok && tv.IsType() && len(c.Args) == 1 {
+				return e.eval(c.Args[0]), true
+			}
+			if h := p.staticCallee(e.Pkg, c); h == nil {
+				if t, ok := ci.Types[c]; ok {
+					if _, isTuple := t.Type.(*types.Tuple); !isTuple && !t.IsVoid() {
+						// an external single-valued function of the text (strings.Split, strings.TrimSpace)
+						for _, a := range c.Args {
+							if v, verr := e.Eval(a); verr == nil && v != nil && (v == text || v.Tag == "derived") {
+								return &Val{Tag: "derived"}, true
+							}
+						}
+						return &Val{Tag: "external"}, true
+					}
+				}
+			}
+			return nil, false
+		}
+		env.Multi = func(e *Env, c *ast.CallExpr) ([]*Val, bool) {
+			ci := e.Pkg.TypesInfo
+			if isFunc(ci, c, "os", "LookupEnv") && len(c.Args) == 1 {
+				if nameOf(e, c.Args[0]) == l.DocEnv {
+					if present {
+						return []*Val{text, boolVal(true)}, true
+					}
+				}
+				return []*Val{strVal(""), boolVal(false)}, true
+			}
+			if h := p.staticCallee(e.Pkg, c); h == nil {
+				if t, ok := ci.Types[c].Type.(*types.Tuple); ok && t.Len() == 2 && isErrorType(t.At(1).Type()) {
+					out.parsers++
+					derived := false
+					for _, a := range c.Args {
+						if v, verr := e.Eval(a); verr == nil && v != nil && (v == text || v.Tag == "derived") {
+							derived = true
+						}
+					}
+					tag := "external"
+					if derived {
+						tag = "derived"
+					}
+					if failParse {
+						return []*Val{{Tag: tag}, {Tag: "parse-error"}}, true
+					}
+					return []*Val{{Tag: tag}, {Nil: true}}, true
+				}
+			}
+			return nil, false
+		}
+		func() {
+			defer func() {
+				if rec := recover(); rec != nil {
+					if ee, ok := rec.(evalErr); ok {
+						err = ee
+						return
+					}
+					panic(rec)
+				}
+			}()
+			out.ret, _ = env.execBlock(fi.Decl.Body.List)
+		}()
+		cur := st.Fields[l.field.Name()]
+		out.assigned = cur != old || old.Tag != "old"
+		out.val = cur
+		return out, err
+	}
+	good, detail := true, ""
+	var valueAt *Val
+	for _, w := range []struct{ present, empty bool }{{true, false}, {true, true}, {false, true}} {
+		o, err := run(w.present, w.empty, false)
+		if err != nil {
+			return false // not evaluable: the caller reports undecided
+		}
+		want := w.present && !w.empty
+		if o.assigned != want {
+			good = false
+			detail = fmt.Sprintf("the setting is assigned=%v for present=%v empty=%v; it must be taken from the environment iff the variable %s is set and non-empty", o.assigned, w.present, w.empty, l.DocEnv)
+		}
+		if want {
+			valueAt = o.val
+		}
+	}
+	l.Env = l.DocEnv
+	r.Check(good, "C20.b", cons+"/guard", p.pos(fi.Decl), "assigned iff "+l.DocEnv+" is present and non-empty ("+mk+" evaluated as a whole)", detail)
+	derives := false
+	for v := valueAt; v != nil; v = v.Ptr {
+		if (v.C != nil && v.C.Kind() == constant.String && constant.StringVal(v.C) == "x") || v.Tag == "derived" {
+			derives = true
+		}
+	}
+	r.Check(derives, "C20.b", cons+"/value", p.pos(fi.Decl), "the stored value derives from the text of "+l.DocEnv, "the value stored into the setting does not depend on the text of "+l.DocEnv)
+	// a parser that fails makes the method fail
+	o, err := run(true, false, true)
+	if err != nil {
+		r.Undecided("C20.b", cons+"/parse-error", p.pos(fi.Decl), fmt.Sprintf("%s not evaluable with a failing parser: %v", mk, err))
+		return true
+	}
+	if o.parsers > 0 {
+		failed := len(o.ret) > 0 && o.ret[len(o.ret)-1] != nil && !o.ret[len(o.ret)-1].Nil
+		r.Check(failed, "C20.b", cons+"/parse-error", p.pos(fi.Decl), "a malformed value of "+l.DocEnv+" makes "+mk+" return an error", "a malformed value of "+l.DocEnv+" is not reported: "+mk+" returns nil although the parser failed")
+	}
+	return true
 }
